@@ -22,8 +22,17 @@ rcs = []
 evs = []
 for gv in variants:
     gd = V if gv == "main" else os.path.join(V, "groups", gv)
-    p = subprocess.run(["python3-vt", "-c", "import sys; sys.path.insert(0,'.'); from pyvc.driver import main; main()"] + args, cwd=gd)
-    rcs.append(p.returncode)
+    budget = int(os.environ.get("CHECK_BUDGET_S", "2700" if tier == "quick" else "21600"))
+    proc = subprocess.Popen(["python3-vt", "-c", "import sys; sys.path.insert(0,'.'); from pyvc.driver import main; main()"] + args, cwd=gd, start_new_session=True)
+    try:
+        proc.wait(timeout=budget)
+        rcs.append(proc.returncode)
+    except subprocess.TimeoutExpired:
+        import signal
+        os.killpg(proc.pid, signal.SIGKILL)  # the prover and its solver workers
+        proc.wait()
+        print("UNDECIDED property=%s time budget of %d s exhausted in engine variant %s (no verdict from the prover)" % (prop, budget, gv), flush=True)
+        rcs.append(2)
     evs.append((gv, os.path.join(gd, "evidence", "%s.json" % prop)))
 # 1 (violation) dominates, then 3 (engine failure), then 2 (undecided)
 rc = 1 if 1 in rcs else (3 if 3 in rcs else (2 if 2 in rcs else 0))
